@@ -1416,7 +1416,9 @@ class LRTable(object):
                             st_actionp['$end'] = p
                         else:
                             # We are at the end of a production.  Reduce!
-                            laheads = p.lookaheads[st]
+                            # sorted: lookaheads are kept in a set of strings, whose iteration order
+                            # depends on the process' hash seed and would leak into the action rows
+                            laheads = sorted(p.lookaheads[st])
                             for a in laheads:
                                 actlist.append((a, p, f'reduce using rule {p.number} ({p})'))
                                 r = st_action.get(a)
